@@ -7,6 +7,7 @@ CONSTANTS
   FieldNames <- MCFieldsQuick
   Routes <- MCRoutesQuick
   MaxSlots = 3
+  MaxPtrs = 1
   MaxVer = 2
   MaxSteps = 5
 INVARIANT WellTyped
